@@ -111,6 +111,12 @@ def new_model(fam, prof, seed):
             return m.HourlyModel(settings=m.HourlyNonSolarSettings(seed=seed))
         if prof == "dictseed":
             return m.HourlyModel(settings={"seed": seed})
+        if prof == "solar":
+            return m.HourlyModel(settings=m.HourlySolarSettings(seed=seed))
+        if prof == "solar_tf":          # the validator prepends ghi: train_features == ["ghi", "temperature"]
+            return m.HourlyModel(settings=m.HourlySolarSettings(seed=seed, train_features=["temperature"]))
+        if prof == "solar_dict":
+            return m.HourlyModel(settings={"train_features": ["ghi", "temperature"], "seed": seed})
         if prof == "robust":
             return m.HourlyModel(settings=m.HourlyNonSolarSettings(seed=seed, scaling_method="robustscaler"))
     if fam == "caltrack":
@@ -161,12 +167,12 @@ class World:
         return {"json": js, "dq": dq, "warn": wn, "tz": tz}
 
     # ---- actions; each returns the event fields it measured (without proj)
-    def make(self, d, fam, kind, name, obs, entry):
-        frame, kw = lifecat.build(fam, kind, name, obs)
+    def make(self, d, fam, kind, name, obs, entry, ghi=False):
+        frame, kw = lifecat.build(fam, kind, name, obs, ghi=ghi)
         self.ext[d] = frame
         before = hash_frame(frame)
         cls = getattr(em(), FAMS[fam][1 if kind == "baseline" else 2])
-        ev = {"op": "make", "d": d, "kind": kind, "fam": fam, "sig": "%s/%s/%s" % (fam, kind, name), "wx": "%s/%s" % (("h" if fam in ("hourly", "caltrack") else "d"), name),
+        ev = {"op": "make", "d": d, "kind": kind, "fam": fam, "sig": "%s%s/%s/%s" % (fam, "+ghi" if ghi else "", kind, name), "wx": "%s%s/%s" % (("h" if fam in ("hourly", "caltrack") else "d"), "g" if ghi else "", name),
               "obs": obs, "entry": entry, "ext_before": before, "tz": "", "dq": [], "warn": [], "fullcal": False}
         try:
             if entry == "series" and hasattr(cls, "from_series"):
@@ -350,7 +356,7 @@ class World:
     def run(self, a):
         op = a["op"]
         if op == "make":
-            ev = self.make(a["d"], a["fam"], a["kind"], a["name"], a.get("obs", "orig"), a.get("entry", "frame"))
+            ev = self.make(a["d"], a["fam"], a["kind"], a["name"], a.get("obs", "orig"), a.get("entry", "frame"), a.get("ghi", False))
         elif op == "new":
             ev = self.new(a["s"], a["fam"], a["prof"], a.get("seed", 0))
         elif op == "fit":
